@@ -125,13 +125,15 @@ def check(res):
 def names_theorems(res, gr, results):
     """Instances of the C08 theorems on the REAL emitted files: C08_no_missing_declaration for every struct,
     C08_no_duplicate_declaration_flat for every struct that meets its syntactic hypotheses."""
-    n_files = n_hyp = 0
+    n_files = n_hyp = n_par = 0
     for m in gr.meta:
         r = results[m["index"]]
         if not m["generated"]:
             continue
         n_files += 1
-        if r["hyp"] == 3:
+        if r["hyp"] & 4:
+            n_par += 1
+        if r["hyp"] & 3 == 3:
             n_hyp += 1
             if r["safe"] & 32:
                 res.violation({"kind": "spec-violation", "struct": m["key"],
@@ -140,7 +142,8 @@ def names_theorems(res, gr, results):
                                "file": open(m["file"]).read()[:4000] if os.path.exists(m["file"]) else None})
     res.coverage["names_theorem_instances"] = {
         "emitted_files_checked_for_undeclared_and_duplicate_names": n_files,
-        "structs_meeting_hypotheses_of_C08_no_duplicate_declaration_flat": n_hyp}
+        "structs_meeting_hypotheses_of_C08_no_duplicate_declaration_flat": n_hyp,
+        "structs_with_documented_parameters_(params_ok,_hypothesis_of_C08_documented_parameters_are_well_typed)": n_par}
 
 
 PROPFILE = "theories/Properties/C08.v"
